@@ -138,6 +138,23 @@ func runC01(c *explore.Ctx) {
 			return !c.Expired()
 		})
 	}
+	// the same MIX batches with every reported field length forced to 0 (and to 1): the length is
+	// whatever the analyzer reports; it feeds the norm only
+	for _, forced := range []int{0, 1} {
+		forced := forced
+		scope := fmt.Sprintf("MIX(%d,2)/len=%d", mixK, forced)
+		gen.Mix(mixK, 2, "m", func(idx int64, batch []gen.Doc, kinds []int) bool {
+			if c.MineIdx(scope, idx) {
+				for _, d := range batch {
+					for i := range d {
+						d[i].Len = forced
+					}
+				}
+				checkBuilt(c, "C01", scope, idx, batch, 1025, c01Comps)
+			}
+			return !c.Expired()
+		})
+	}
 	for _, m := range []uint32{1, 1025} {
 		m := m
 		scope := fmt.Sprintf("TERM(%d,3)/%d", termN, m)
